@@ -330,7 +330,7 @@ def _run(chk, drv):
                          "plus dotted package strings for safe_snake_case (used for import aliases) and (member, enum) pairs. "
                          "A case is one (function, input) evaluation; non-trivial = the function changes its input or the input has ≥ 2 words; "
                          "distinct by (function, input)." % (5 if quick else 6))
-    chk.extra["exhaustive"] = {"alphabet": ALPHA, "max_length": 5 if quick else 6, "count": groups["exhaustive"]}
+    chk.extra["exhaustive_exploration"] = {"alphabet": ALPHA, "max_length": 5 if quick else 6, "count": groups["exhaustive"]}
     chk.extra["assumptions"] = [
         "the regex engine (re.sub with the WORD / WORD_UPPER / SYMBOLS pattern) is modelled by a hand-written tokenizer; validated exhaustively here, not proved",
         "strict=True only (no call site passes strict=False); ASCII identifiers (str.isidentifier is modelled as [A-Za-z_][A-Za-z0-9_]*)",
